@@ -50,6 +50,7 @@ def step' (st : St) : List String → St × String
   | ["xto", _, _, _] | ["xcommit", _] | ["xdelto", _] | ["xdelfrom", _] | ["xcancel", _] => (st, "err")
   -- malformed create-to contents and initiations: refused whatever the state, nothing changes
   | ["tobad", _, _, _, _] | ["frombad", _, _, _, _] => (st, "err")
+  | ["rebin", _] => (st, "ok")        -- same records in the old binary encoding: no change of meaning
   | ["dump"] => (st, dump st)
   | _ => (st, "bad-op")
 
